@@ -12,13 +12,18 @@ def impl_hexdump(d, bpl=16, bpc=4):
         return hexdump(memoryview(bytes(d)), bpl, bpc)
     except AssertionError:
         return None
+    except Exception as e:  # noqa: BLE001  (an escaping exception is a result of its own: never the model's lines)
+        return ["<hexdump raised %s: %s>" % (type(e).__name__, str(e)[:120])]
 
 
 def impl_parse(lines, fmt_id):
     import pel.hexdump as hd
     from io_drawer import dump as iod
     fmt = hd.DEFAULT_LINE_FORMAT if fmt_id == 0 else iod.HEX_DUMP_LINE_FORMATS[fmt_id - 1]
-    return list(hd.parse(lines, fmt))
+    try:
+        return list(hd.parse(lines, fmt))
+    except Exception as e:  # noqa: BLE001
+        return ["<parse raised %s: %s>" % (type(e).__name__, str(e)[:120])]
 
 
 def gen_bytes(rng, n):
